@@ -370,11 +370,6 @@ theorem step_update_deep {T : Table} {D : List Tree} {s s' : St} (hI : Inv D s) 
     · cases h
   · cases h
 
-theorem clsFlag_of_ok {T : Table} (hT : tableOK T = true) {c : Nat} {ce : ClsE} (hce : T[c]? = some ce)
-    (hc : ce.isContainer = true) : clsFlag T c (·.copyDeep) = true ∧ clsFlag T c (·.updDeep) = true := by
-  have := clsOK_container (tableOK_cls hT hce) hc
-  simp [clsFlag, hce, this.1, this.2]
-
 theorem run_inv {T : Table} (hT : tableOK T = true) {D : List Tree} :
     ∀ (ops : List Op) (s : St), Inv D s → Inv D (run T s ops)
   | [], s, hI => hI
